@@ -1,11 +1,11 @@
-import StoneVerif.Lemmas.FeCompileLegalIff
+import StoneVerif.Lemmas.FeCompilePatch
 import StoneVerif.Props.C02Compile
 /-!
 # C01 for the compile model: accepted = legal
 
 `Legal rx fs` (Model/FeCompile.lean) is the conjunction of the rules of the language over the declarations of all
 files, written without reference to the order of files, declarations or passes (names: `FeNames.NoClash`; imports;
-references; aliases; structs and unions; enumerated subtypes; routes).  `compile` follows the passes of
+references; aliases; structs and unions; enumerated subtypes; routes; patches).  `compile` follows the passes of
 `IRGenerator.generate_IR`.  `rx` says which patterns `re.compile` accepts; `nsLexical fs` says that namespace names
 are identifiers (no `/`) -- a fact about the parser's output (token `ID`), not a rule; it is what makes the canonical
 keys of C01's name model unambiguous (`FeNames.register_ok_iff_noclash`).
@@ -19,14 +19,14 @@ that moment -- is, taken together with the others, the order-free rule; and the 
 trip over. -/
 theorem compile_ok_iff_legal (rx : String → Bool) (fs : List File) (hl : nsLexical fs = true) :
     (∃ api, compile rx fs = .ok api) ↔ Legal rx fs = true :=
-  L.compile_ok_iff_legal rx fs hl
+  L.compile_ok_iff_legal_patches rx fs hl
 
 /-- **Never refused.** A set of spec files that violates no rule is compiled: no pass refuses it -- and none of
 the model's recursion bounds is hit, no impossible state is reached (`outOfFuel`, `fuelAlias`, `fuelAncestors`,
 `fuelImports`, `internal` do not occur on legal input). -/
 theorem legal_accepted (rx : String → Bool) (fs : List File) (hl : nsLexical fs = true) (h : Legal rx fs = true) :
     ∃ api, compile rx fs = .ok api :=
-  L.legal_compile_ok hl h
+  (compile_ok_iff_legal rx fs hl).mpr h
 
 /-- **Every violation is reported.** A set of spec files that violates a rule -- any rule, anywhere, in any order of
 files and declarations -- is refused. (WHICH error is raised when several rules are violated follows the order of
@@ -36,7 +36,7 @@ theorem violation_refused (rx : String → Bool) (fs : List File) (hl : nsLexica
   cases hc : compile rx fs with
   | error e => exact ⟨e, rfl⟩
   | ok api =>
-    have := L.compile_legal hl hc
+    have := (compile_ok_iff_legal rx fs hl).mp ⟨api, hc⟩
     rw [h] at this
     cases this
 
@@ -48,7 +48,7 @@ theorem compile_error_sound (rx : String → Bool) (fs : List File) (hl : nsLexi
   cases hL : Legal rx fs with
   | false => rfl
   | true =>
-    obtain ⟨api, hapi⟩ := L.legal_compile_ok hl hL
+    obtain ⟨api, hapi⟩ := (compile_ok_iff_legal rx fs hl).mpr hL
     rw [h] at hapi
     cases hapi
 
@@ -133,6 +133,20 @@ example : errOf (compile rx1 (one [.type { name := "R", kind := .struct, subtype
     Legal rx1 (one [.type { name := "R", kind := .struct, subtypes := some ([("a", ref "A")], false) },
                     .type { name := "A", kind := .struct, «extends» := some (ref "R") },
                     .type { name := "B", kind := .struct, «extends» := some (ref "R") }]) = false := by decide +kernel
+
+example : errOf (compile rx1 (one [.type { name := "S", kind := .struct, fields := [{ name := "x", ty := some (ref "String") }] },
+                                    .patch { name := "S", kind := .struct, fields := [{ name := "x", ty := some (ref "Int32") }] }]))
+      = some .patchFieldClash ∧
+    Legal rx1 (one [.type { name := "S", kind := .struct, fields := [{ name := "x", ty := some (ref "String") }] },
+                    .patch { name := "S", kind := .struct, fields := [{ name := "x", ty := some (ref "Int32") }] }]) = false := by
+  decide +kernel
+
+example : errOf (compile rx1 (one [.type { name := "S", kind := .union false },
+                                    .patch { name := "S", kind := .union true, fields := [{ name := "a", ty := none }] }]))
+      = some .patchMismatch ∧
+    Legal rx1 (one [.type { name := "S", kind := .union false },
+                    .patch { name := "S", kind := .union true, fields := [{ name := "a", ty := none }] }]) = false := by
+  decide +kernel
 
 example : errOf (compile rx1 (one [.route { name := "r", version := 1, arg := ref "Void", result := ref "Void",
                                              error := some (ref "Void"), deprecated := some (some ("s", 1)) }])) = some .undefinedRoute ∧
